@@ -974,7 +974,7 @@ def run(chk):
         "compressing ostream finishes the codec stream before flushing the wrapped stream and sqfs2tar reports success "
         "only after that flush; (K2-codec-table) every detectable compressor has both constructors. Equality of decoded "
         "streams, concatenated members and detection of truncated input are value-level / library behaviour and are "
-        "not decided. K12-probemagic: the probe that decides 'plain tar' accepts every magic string the header reader accepts (constants compared on both sides).")
+        "not decided. K12-probemagic: the probe that decides 'plain tar' accepts every magic string the header reader accepts (constants compared on both sides). The partial-transfer rules of C12 (K10-loop, K10-eintr, K10-zero, K10-advance, K10-exit at every raw read/write of the tar2sqfs closure) and the archive layer's T1/T2 (end of input inside a record or a member is an error) are run here too: they are what 'any pipe chunking' and 'truncated input is an error' rest on below and above the wrappers.")
     chk.assumptions = ["return-code sets and 'finish' constants of zlib, liblzma, libbz2, libzstd as documented"]
     prog = load_program("tar2sqfs")
     codec_rule(chk, prog)
@@ -1000,6 +1000,18 @@ def run(chk):
     error_now_rule(chk, load_program("tar2sqfs"))
     error_now_rule(chk, load_program("sqfs2tar"))
     chk.floor("K1-errnow", 2)
+    # what the wrappers sit on and what sits on them (the rules of C12 for the tar2sqfs input path): the file / pipe stream
+    # fills its buffer in a loop over short reads, so the one peek that picks the codec sees the magic however the pipe cuts
+    # it; the archive layer takes end of input inside a member for an error
+    from .c12 import partial_transfer
+    partial_transfer(chk, prog)
+    from ..tarrules import t1_rule, t2_rule
+    t1_rule(chk, prog)
+    t2_rule(chk, prog)
+    chk.floor("K10-loop", 4)
+    chk.floor("K10-advance", 8)
+    chk.floor("T1-eof", 1)
+    chk.floor("T2-short", 5)
     chk.floor("K-codec", 4)
     chk.floor("K10-offsets", 6)
     chk.floor("K12-finish", 4)
